@@ -136,6 +136,10 @@ def scenarios(ctx):
         add(2, [5], ["killplay:1:1"], slow=0.2)
         add(1, [1], ["killwait:0:1"])
         add(2, [2, 2], ["killwait:0:2"])
+        # a worker killed while it is still starting up (inside its engine factory)
+        add(1, [2], ["killinit:0"])
+        add(2, [5], ["killinit:1"], slow=0.2)
+        add(3, [5], ["killinit:0"], api="play_many_games")
         # backlog (N > 2W) with an early fault: `cmd` is still full when the failure is noticed
         add(1, [8], ["game:0:1"])
         add(2, [12], ["game:0:1"], slow=1.2)
@@ -166,6 +170,7 @@ def scenarios(ctx):
                         add(W, [rng.choice([2, 5])], ["killplay:%d:%d" % (j, k)], slow=0.1 if W > 1 else 0.0)
                     for r in (1, 2):
                         add(W, [rng.choice([1, 2, 5]), 2], ["killwait:%d:%d" % (j, r)])
+                    add(W, [rng.choice([1, 2, 5]), 2], ["killinit:%d" % j], slow=rng.choice([0.0, 0.2]), api=rng.choice(["play_many", "play_many_games"]))
                 add(W, [5], ["game:%d:1" % j for j in js])
                 add(W, [8, 2], ["killwait:0:1", "game:%d:2" % (W - 1)])
                 # backlogs (N > 2W), early faults, fast and slow survivors; both entry points
